@@ -47,6 +47,8 @@ def materialise(eng, st, v, M):
         lo, hi = eng.resolve(st, it.fields.get(0)), eng.resolve(st, it.fields.get(1))
         if isinstance(lo, K) and isinstance(hi, K) and hi.v - lo.v < 100000:
             return [K(i) for i in range(lo.v, hi.v)]
+    if isinstance(it, AggV) and it.kind == "bytes-split" and isinstance(it.fields.get(2), K) and it.fields[2].v:
+        return []          # a split iterator that has handed out its last piece
     if isinstance(it, AggV) and it.kind == "bytes-split" and isinstance(it.fields.get(2), K) and not it.fields[2].v:
         # slice::split(pred): pieces between the bytes for which the predicate holds (decided by folding the predicate)
         data = list(it.fields[0].b)
@@ -335,7 +337,42 @@ def build(M):
             return NotImplemented
         return m
 
+    def fold_from_fn(eng, st, fr, t, args):
+        """fold over core::iter::from_fn(g): g is called for the next item until it answers None (lazy, in order)"""
+        ff = M._fromfn_of(eng, st, args[0])
+        if ff is None:
+            return None
+        out = []
+        work = [(st, args[1], 0)]
+        while work:
+            s, acc, n = work.pop()
+            if n > 64:
+                raise fdai.TooManyPaths("from_fn fold")
+            if s.outcome is not None:
+                out.append((s, TOP))
+                continue
+            f2 = s.frames[-1]
+            ff2 = M._fromfn_of(eng, s, eng.operand(s, f2, t["args"][0]))
+            for s2, item in eng.call_closure(s, f2, ff2.fields[0], [], t):
+                if s2.outcome is not None:
+                    out.append((s2, TOP))
+                    continue
+                item = eng.resolve(s2, item)
+                if isinstance(item, EnumV) and item.name == "None":
+                    out.append((s2, acc))
+                elif isinstance(item, EnumV) and item.name == "Some":
+                    f3 = s2.frames[-1]
+                    clo = eng.operand(s2, f3, t["args"][2])
+                    for s3, v in eng.call_closure(s2, f3, clo, [acc, item.fields.get(0, TOP)], t):
+                        work.append((s3, v, n + 1))
+                else:
+                    out.append((s2, s2.fresh(("from_fn-fold-undecided",))))
+        return out
+
     def c_fold(eng, st, fr, t, name, rname, args):
+        ffr = fold_from_fn(eng, st, fr, t, args)
+        if ffr is not None:
+            return ffr
         items = items_of(eng, st, args[0])
         if items is None:
             return NotImplemented
